@@ -72,7 +72,9 @@ F = common.f2h
 # ------------------------------------------------------------------------------------------------
 
 
-def make_header(n, cd=1 / 360., bmaj=4.0, bmin=3.0, bpa=20., ra0=150.0, dec0=-30.0):
+def make_header(n, cd=1 / 360., bmaj=4.0, bmin=3.0, bpa=20., ra0=150.0, dec0=-30.0, proj='SIN', crpix_off=(0.0, 0.0)):
+    """`crpix_off`: offset (pixels) of the projection's reference pixel from the image centre — a cut-out of a
+    wide mosaic has it far outside the image, where the local pixel->sky scale differs from CDELT"""
     from astropy.io import fits
     h = fits.Header()
     h['SIMPLE'] = True
@@ -80,12 +82,12 @@ def make_header(n, cd=1 / 360., bmaj=4.0, bmin=3.0, bpa=20., ra0=150.0, dec0=-30
     h['NAXIS'] = 2
     h['NAXIS1'] = n
     h['NAXIS2'] = n
-    h['CTYPE1'] = 'RA---SIN'
-    h['CTYPE2'] = 'DEC--SIN'
+    h['CTYPE1'] = 'RA---' + proj
+    h['CTYPE2'] = 'DEC--' + proj
     h['CRVAL1'] = ra0
     h['CRVAL2'] = dec0
-    h['CRPIX1'] = n / 2
-    h['CRPIX2'] = n / 2
+    h['CRPIX1'] = n / 2 + crpix_off[0]
+    h['CRPIX2'] = n / 2 + crpix_off[1]
     h['CDELT1'] = -cd
     h['CDELT2'] = cd
     h['BMAJ'] = bmaj * cd
@@ -125,6 +127,10 @@ def build_image(spec):
     n = max(64, k * cell)
     if spec['kind'] == 'empty':
         return np.zeros((n, n), dtype=np.float32), n
+    if spec['kind'] == 'pair':    # one positive, one negative, one negative blend, asymmetric so that argmax != argmin pixel
+        srcs = [(20.3, 30.6, 5.0, 2.2, 1.5, 25.0), (55.7, 24.2, -4.0, 2.4, 1.4, -35.0),
+                (30.0, 60.0, -6.0, 2.0, 1.5, 10.0), (35.5, 63.0, -3.0, 1.8, 1.4, 60.0)]
+        return (render(n, srcs) * spec.get('scale', 1.0)).astype(np.float32), n
     if spec['kind'] == 'noise':
         from scipy.ndimage import gaussian_filter
         img = gaussian_filter(rng.normal(0, 1, (n, n)), 1.4)
@@ -163,8 +169,9 @@ def write_image(ctx, spec, tag):
     path = os.path.join(ctx.tmpdir(), f'c03_{tag}.fits')
     with warnings.catch_warnings():
         warnings.simplefilter('ignore')
-        fits.PrimaryHDU(img, make_header(n, ra0=spec.get('ra0', 150.0), dec0=spec.get('dec0', -30.0))).writeto(
-            path, overwrite=True)
+        fits.PrimaryHDU(img, make_header(n, ra0=spec.get('ra0', 150.0), dec0=spec.get('dec0', -30.0),
+                                         **{k: (tuple(v) if k == 'crpix_off' else v) for k, v in spec.get('hdr', {}).items()})
+                        ).writeto(path, overwrite=True)
     return path, img
 
 
@@ -282,6 +289,15 @@ class Recorder:
         sfm.do_lmfit, sfm.errors, sfm.SourceFinder._fit_island, sfm.SourceFinder._refit_islands = self._orig
 
 
+def real_opts(opts):
+    """JSON-able options -> keyword arguments (`beam_override` = [a, b, pa] in degrees -> beam=Beam(...))"""
+    o = dict(opts)
+    if 'beam_override' in o:
+        from AegeanTools.wcs_helpers import Beam
+        o['beam'] = Beam(*o.pop('beam_override'))
+    return o
+
+
 def run_blind(path, opts, record=True):
     from AegeanTools.source_finder import SourceFinder
     rec = Recorder().install() if record else None
@@ -289,7 +305,7 @@ def run_blind(path, opts, record=True):
         sf = SourceFinder(log=quiet_log())
         with warnings.catch_warnings():
             warnings.simplefilter('ignore')
-            out = sf.find_sources_in_image(path, cores=1, nonegative=False, nopositive=False, **opts)
+            out = sf.find_sources_in_image(path, cores=1, nonegative=False, nopositive=False, **real_opts(opts))
     finally:
         if rec:
             rec.remove()
@@ -303,7 +319,7 @@ def run_prior(path, catalogue, opts, record=True):
         sf = SourceFinder(log=quiet_log())
         with warnings.catch_warnings():
             warnings.simplefilter('ignore')
-            out = sf.priorized_fit_islands(path, catalogue=copy.deepcopy(catalogue), cores=1, **opts)
+            out = sf.priorized_fit_islands(path, catalogue=copy.deepcopy(catalogue), cores=1, **real_opts(opts))
     finally:
         if rec:
             rec.remove()
@@ -519,12 +535,43 @@ def judge_blind(J, out, rec, sf, opts, label):
             ncomp_rows = len(byisle.get(int(isl.island), []))
             trip = " ".join(f"{x + x0} {y + y0} {okey(idata[x, y])}" for x, y in zip(xs, ys))
 
-            def hs(o, isl=isl, f=f, ncomp_rows=ncomp_rows, npx=len(xs)):
+            def peak_position(isl, f, idata, m_px, m_py):
+                """the pixel that contains the island row's (ra, dec) holds peak_flux (FITS pixel k = array index k-1,
+                the convention of the component rows), and is the model's peak pixel"""
+                ctx.count('island-rows-negative' if float(isl.peak_flux) < 0 else 'island-rows-positive')
+                try:
+                    px, py = sf.global_data.wcshelper.sky2pix([isl.ra, isl.dec])
+                    ix, iy = int(round(px - 1)), int(round(py - 1))
+                except Exception:  # noqa: BLE001
+                    ix = iy = None
+                x0_, x1_, y0_, y1_ = f['offsets']
+
+                def val(ax, ay):
+                    if ax is None or not (x0_ <= ax < x1_ and y0_ <= ay < y1_):
+                        return None
+                    return float(idata[ax - x0_, ay - y0_])
+                here = val(ix, iy)
+                if here is not None and F(here) == F(float(isl.peak_flux)) and m_px != 'none' and (ix, iy) == (int(m_px), int(m_py)):
+                    return
+                up = val(None if ix is None else ix + 1, None if iy is None else iy + 1)
+                if up is not None and F(up) == F(float(isl.peak_flux)) and m_px != 'none' and (ix + 1, iy + 1) == (int(m_px), int(m_py)):
+                    off = 'one-pixel-low (array index used as FITS pixel number)'
+                else:
+                    off = 'other'
+                J.fail('spec', f"{label}: island row {isl.island} (peak_flux {float(isl.peak_flux)!r}) is positioned at ra={isl.ra!r} "
+                       f"dec={isl.dec!r} = array pixel ({ix},{iy}), whose value is {here!r}; the detected pixel holding peak_flux is "
+                       f"({m_px},{m_py}) [{off}]",
+                       dict(site='island-row', clause='peak-position', offset=off,
+                            **({'negative_island': bool(float(isl.peak_flux) < 0)} if off == 'other' else {})),
+                       dict(island=int(isl.island)))
+
+            def hs(o, isl=isl, f=f, ncomp_rows=ncomp_rows, npx=len(xs), idata=idata):
                 w = o.split()
                 if w[0] == 'bad-op':
                     J.fail('corr', f"driver rejected the island summary request for island {isl.island}", dict(site='driver'))
                     return
-                m_comp, m_pix, m_peak, m_xw, m_yw, inb = w
+                m_comp, m_pix, m_peak, m_xw, m_yw, inb, m_px, m_py = w
+                peak_position(isl, f, idata, m_px, m_py)
                 got = dict(components=int(isl.components), pixels=int(isl.pixels), peak=okey(isl.peak_flux),
                            x_width=int(isl.x_width), y_width=int(isl.y_width), extent=[int(v) for v in isl.extent])
                 want = dict(components=int(m_comp), pixels=int(m_pix), peak=(None if m_peak == 'none' else int(m_peak)),
@@ -683,7 +730,7 @@ def rerun_and_diff(ctx, J, label, kind, path, opts, out, catalogue=None):
                dict(site='reproducible', clause='in-process'))
 
 
-def child_run(ctx, J, label, job, out):
+def child_run(ctx, J, label, job, out, sig=None, what='the same run in a fresh process'):
     """same input in a fresh interpreter"""
     tmp = ctx.tmpdir()
     jf = os.path.join(tmp, f'job_{abs(hash(label)) % 10**8}.json')
@@ -701,8 +748,9 @@ def child_run(ctx, J, label, job, out):
     got = json.load(open(of))
     d = diff_canon(json.loads(json.dumps(canon(out))), got)
     if d:
-        J.fail('spec', f"{label}: the same run in a fresh process gave a different catalogue: {d}",
-               dict(site='reproducible', clause='fresh-process'))
+        J.fail('spec', f"{label}: {what} gave a different catalogue: {d}",
+               sig or dict(site='reproducible', clause='fresh-process'))
+    return got
 
 
 def save_roundtrip(ctx, J, label, comps):
@@ -817,6 +865,63 @@ def scenario_injected_nan(ctx, mode='blind'):
     ctx.case(case, nontrivial_key=('injected-nan-model', mode))
 
 
+def scenario_history(ctx, variant, nside=3, seed=None):
+    """The "histories" quantifier: a run must not depend on what the process did before.  In ONE process: image A
+    (beam 1), then B (same pixels, another beam: through the header or through the beam= override), then A, then B
+    again; every B must equal B in a fresh interpreter and every A the first A, apart from uuids.  docov=True,
+    small islands (the grid has 1-6 pixel islands and compact sources)."""
+    seed = 8000 + ctx.seed if seed is None else seed
+    cd = 1 / 360.
+    forced = dict(rms=0.05, bkg=0.0)
+    spec_a = image_spec('grid', seed, nside)
+    if variant == 'header-beam':
+        spec_b = dict(spec_a, hdr=dict(bmaj=5.5, bmin=2.6, bpa=-40.0))
+        opts_b = dict(forced)
+    else:
+        spec_b = dict(spec_a)
+        opts_b = dict(forced, beam_override=[5.5 * cd, 2.6 * cd, -40.0])
+    case = dict(scenario='history-' + variant, mode='blind', image=spec_b, opts=opts_b, before=dict(image=spec_a, opts=forced))
+    J = Judge(ctx, case)
+    label = f"history[{variant}]"
+    sig = dict(site='reproducible', what='history-dependence', variant=variant)
+    try:
+        path_a, _ = write_image(ctx, spec_a, 'histA')
+        path_b, _ = write_image(ctx, spec_b, 'histB')
+        a1, _, _ = run_blind(path_a, forced, record=False)
+        b1, _, _ = run_blind(path_b, opts_b, record=False)
+        a2, _, _ = run_blind(path_a, forced, record=False)
+        b2, _, _ = run_blind(path_b, opts_b, record=False)
+        cat = [s for s in a1 if hasattr(s, 'source')]
+        p1 = p2 = pb = None
+        if cat:
+            popts = dict(forced, stage=3, doregroup=False)
+            p1, _, _ = run_prior(path_a, cat, popts, record=False)
+            pb, _, _ = run_prior(path_b, cat, dict(opts_b, stage=3, doregroup=False), record=False)
+            p2, _, _ = run_prior(path_a, cat, popts, record=False)
+    except Exception as e:  # noqa: BLE001
+        J.fail('spec', f"{label}: aborted with {type(e).__name__}: {e}", dict(site='find_sources_in_image', clause='aborts',
+                                                                            exc=type(e).__name__, cause='history'))
+        ctx.case(case)
+        return
+    for nm, x, y in (('A, then B, then A again', a1, a2), ('B, then A, then B again', b1, b2)) + \
+            ((('priorized A, then priorized B, then priorized A again', p1, p2),) if p1 is not None else ()):
+        d = diff_canon(canon(x), canon(y))
+        if d:
+            J.fail('spec', f"{label}: {nm} in one process: the two catalogues of the same input differ: {d}",
+                   dict(sig, clause='in-process-interleaved'))
+    child_run(ctx, J, label, dict(kind='blind', image=spec_b, opts=opts_b), b1, sig=dict(sig, clause='warm-vs-fresh'),
+              what='B after A in a warm process vs B in a fresh process')
+    if pb is not None and not ctx.quick:
+        child_run(ctx, J, label, dict(kind='prior', image=spec_b, opts=dict(opts_b, stage=3, doregroup=False),
+                                      catalogue=[src_to_dict(s) for s in cat]), pb, sig=dict(sig, clause='warm-vs-fresh-priorized'),
+                  what='priorized B after A in a warm process vs in a fresh process')
+    if diff_canon(canon(a1), canon(b1)) is None:
+        ctx.note(f"{label}: A and B gave identical catalogues - the beam change had no effect, the scenario is vacuous")
+    J.flush()
+    ctx.count('history-runs')
+    ctx.case(case, nontrivial_key=('history', variant, ctx.seed))
+
+
 def scenario_blind(ctx, tag, spec, opts, rerun=True, child=False, roundtrip=False):
     case = dict(scenario=tag, mode='blind', image=spec, opts={k: v for k, v in opts.items()})
     J = Judge(ctx, case)
@@ -927,25 +1032,40 @@ def synthetic_catalogue(n, spacing=12, nside=None, blend_every=0):
     return out, npix
 
 
-def scenario_istart(ctx, n, stage=1, regroup=False):
+def scenario_istart(ctx, n, stage=1, regroup=False, reject=()):
     """n isolated catalogue sources refitted on an image that holds them: the smallest input on which the
-    batch start matters is n = 21"""
+    batch start matters is n = 21.  `reject`: indices of catalogue sources that the refit must reject — even
+    ones are moved off the image, odd ones sit on blanked (NaN) pixels — so that a group in a non-final batch
+    consumes an island number without producing a row."""
     from astropy.io import fits
     cat, npix = synthetic_catalogue(n, nside=4)
     from AegeanTools.wcs_helpers import WCSHelper
     wh = WCSHelper.from_header(make_header(npix))
-    srcs = []
-    for s in cat:
+    srcs, blank = [], []
+    for k, s in enumerate(cat):
         x, y = wh.sky2pix([s.ra, s.dec])
         srcs.append((x - 1, y - 1, s.peak_flux, 1.7, 1.3, 20.0))
+        if k in reject and k % 2 == 1:
+            blank.append((int(round(x - 1)), int(round(y - 1))))
+        elif k in reject:
+            ra, dec = wh.pix2sky([-40.0 - 3 * k, -40.0])
+            s.ra, s.dec = float(ra), float(dec)
     img = render(npix, srcs).astype(np.float32)
-    path = os.path.join(ctx.tmpdir(), f'c03_istart_{n}.fits')
+    for (bx, by) in blank:
+        img[max(0, bx - 4):bx + 5, max(0, by - 4):by + 5] = np.nan
+    path = os.path.join(ctx.tmpdir(), f'c03_istart_{n}_{len(reject)}.fits')
     with warnings.catch_warnings():
         warnings.simplefilter('ignore')
         fits.PrimaryHDU(img, make_header(npix)).writeto(path, overwrite=True)
-    spec = dict(kind='istart-grid', seed=0, nside=4, n=n)
+    spec = dict(kind='istart-grid', seed=0, nside=4, n=n, reject=list(reject))
     opts = dict(rms=0.05, bkg=0.0, stage=stage, doregroup=regroup)
-    return scenario_prior(ctx, f'istart{n}', spec, path, cat, opts, rerun=False)
+    tag = f'istart{n}' + (f'-reject{"_".join(str(r) for r in reject)}' if reject else '')
+    out = scenario_prior(ctx, tag, spec, path, cat, opts, rerun=False)
+    if out is not None and reject:
+        ctx.count('priorized-runs-with-rejected-sources-in-non-final-batches')
+        if len(out) != n - len(reject):
+            ctx.note(f"{tag}: expected {n - len(reject)} rows, got {len(out)} (the rejected sources were not rejected?)")
+    return out
 
 
 def direct_errors(ctx):
@@ -1070,8 +1190,14 @@ def run(ctx):
 
     # corpus: the minimal witnesses of the ledger items and of the open findings (run first, every time)
     scenario_istart(ctx, 21, stage=1, regroup=False)
+    scenario_istart(ctx, 25, stage=1, regroup=False, reject=(3, 8))     # numbers consumed without rows, batch 0
+    scenario_istart(ctx, 47, stage=2, regroup=True, reject=(0, 19, 20, 33))
     scenario_injected_nan(ctx, 'blind')
     scenario_injected_nan(ctx, 'priorized')
+    # an all-negative and a positive island with island rows (peak pixel of a negative island = its minimum)
+    scenario_blind(ctx, 'neg-island', dict(kind='pair', seed=0, nside=2), dict(rms=0.05, bkg=0.0, doislandflux=True), rerun=False)
+    scenario_history(ctx, 'header-beam')
+    scenario_history(ctx, 'beam-override')
     scenario_blind(ctx, 'tiny-units', dict(image_spec('grid', 31, 2), scale=1e-15), dict(rms=0.05e-15, bkg=0.0), rerun=False)
 
     range_helpers(ctx)
@@ -1106,7 +1232,22 @@ def run(ctx):
     spec2 = image_spec('grid', 1500 + seed, 5 if q else 8)
     comps2, path2 = scenario_blind(ctx, 'grid2-island', spec2, dict(forced, doislandflux=True), rerun=False)
     if comps2:
-        scenario_prior(ctx, 'grid2', spec2, path2, comps2, dict(forced, stage=2, doregroup=True), rerun=False, child=True)
+        scenario_prior(ctx, 'grid2', spec2, path2, comps2, dict(forced, stage=2, doregroup=True), rerun=False, child=not q)
+
+    # S2c: cut-outs of wide mosaics: the projection's reference pixel is 12-25 degrees outside the image, so the
+    # local pixel->sky scale (and with it a, b and the local psf) differs from CDELT / the header beam by several
+    # per cent; int_flux = peak*a*b/(psf_a*psf_b) must still hold within 1 % between the reported columns
+    wide = [('SIN', (2000.0, 0.0), 30.0), ('TAN', (-900.0, 1200.0), 45.0), ('ARC', (0.0, -1000.0), 60.0),
+            ('ZEA', (1400.0, 1400.0), 30.0), ('STG', (-1800.0, 300.0), 40.0), ('SIN', (-1500.0, -1500.0), 60.0)]
+    for gi, (proj, off, arcsec) in enumerate(wide[:(2 if q else len(wide))]):
+        spec_g = dict(image_spec('grid', 7000 + 10 * seed + gi, 3 if q else 5),
+                      hdr=dict(proj=proj, crpix_off=list(off), cd=arcsec / 3600., bmaj=4.5, bmin=3.5, bpa=30.0))
+        cg, pg = scenario_blind(ctx, f'wide-{proj}{gi}', spec_g, dict(forced, doislandflux=(not q or gi == 1)),
+                                rerun=False, child=(gi == 0 and not q))
+        ctx.count('wide-offset-geometry-runs')
+        if cg:
+            scenario_prior(ctx, f'wide-{proj}{gi}', spec_g, pg, cg, dict(forced, stage=3 - gi % 2, doregroup=bool(gi % 2)),
+                           rerun=False)
 
     # S3: internal BANE (no forced rms/bkg) on a small noisy field with a few sources
     spec_b = image_spec('grid', 2000 + seed, 4)
@@ -1175,6 +1316,12 @@ def search(ctx):
         scenario_istart(ctx, n, stage=1, regroup=False)
         if any(f['kind'] == 'spec' for f in ctx.failures):
             return
+    # a batch start that depends on what earlier batches produced: groups that yield no row (rejected
+    # sources) or several rows in a non-final batch
+    for n, rej in ((21, (0,)), (21, (19,)), (25, (3, 8)), (30, (1, 2, 5)), (45, (10, 25)), (61, (4, 21, 44))):
+        scenario_istart(ctx, n, stage=1, regroup=False, reject=rej)
+        if any(f['kind'] == 'spec' for f in ctx.failures):
+            return
     direct_errors(ctx)
     if any(f['kind'] == 'spec' for f in ctx.failures):
         return
@@ -1195,9 +1342,12 @@ def replay(ctx, rec):
     elif sc in ('pa_limit', 'fix_shape'):
         range_helpers(ctx)
     elif sc.startswith('istart'):
-        scenario_istart(ctx, int(c['image']['n']), stage=c['opts'].get('stage', 1), regroup=c['opts'].get('doregroup', False))
+        scenario_istart(ctx, int(c['image']['n']), stage=c['opts'].get('stage', 1), regroup=c['opts'].get('doregroup', False),
+                        reject=tuple(c['image'].get('reject', ())))
     elif sc == 'injected-nan-model':
         scenario_injected_nan(ctx, c.get('mode', 'blind'))
+    elif sc.startswith('history-'):
+        scenario_history(ctx, sc[len('history-'):], seed=c['image'].get('seed'))
     elif c.get('mode') == 'blind' and sc != 'bane':
         scenario_blind(ctx, sc, c['image'], c['opts'], rerun=True)
     elif c.get('mode') == 'priorized':
